@@ -611,7 +611,11 @@ func checkIndexRoot(p *Program, r *Report) {
 		fatalf("unresolved anchor: BlockStats.IndexOffset")
 	}
 	n := 0
-	for _, f := range p.Funcs {
+	loopsOf := map[*ssa.Function]map[*ssa.BasicBlock]bool{}
+	loopBlocks := func(f *ssa.Function) map[*ssa.BasicBlock]bool {
+		if m, ok := loopsOf[f]; ok {
+			return m
+		}
 		// blocks that lie in some loop of f
 		inLoop := map[*ssa.BasicBlock]bool{}
 		for _, b := range f.Blocks {
@@ -636,6 +640,10 @@ func checkIndexRoot(p *Program, r *Report) {
 				}
 			}
 		}
+		loopsOf[f] = inLoop
+		return inLoop
+	}
+	for _, f := range p.Funcs {
 		for _, b := range f.Blocks {
 			for _, ins := range b.Instrs {
 				sto, ok := ins.(*ssa.Store)
@@ -669,8 +677,42 @@ func checkIndexRoot(p *Program, r *Report) {
 						walk(x.X)
 					case *ssa.ChangeType:
 						walk(x.X)
+					case *ssa.Extract:
+						// a result of a helper of this package: the helper's own
+						// returned values are followed, in the helper's loops
+						if loopBlocks(x.Parent())[x.Block()] {
+							return
+						}
+						if call, ok := x.Tuple.(*ssa.Call); ok {
+							if g := call.Call.StaticCallee(); g != nil && g.Pkg == f.Pkg && len(g.Blocks) > 0 {
+								for _, gb := range g.Blocks {
+									if ret, ok := gb.Instrs[len(gb.Instrs)-1].(*ssa.Return); ok && x.Index < len(ret.Results) {
+										walk(ret.Results[x.Index])
+									}
+								}
+								return
+							}
+						}
+						if !loopBlocks(x.Parent())[x.Block()] {
+							bad = "a value computed before the level loop (" + p.pos(x.Pos()) + ")"
+						}
+					case *ssa.Call:
+						if loopBlocks(x.Parent())[x.Block()] {
+							return
+						}
+						if g := x.Call.StaticCallee(); g != nil && g.Pkg == f.Pkg && len(g.Blocks) > 0 && g.Signature.Results().Len() == 1 {
+							for _, gb := range g.Blocks {
+								if ret, ok := gb.Instrs[len(gb.Instrs)-1].(*ssa.Return); ok && len(ret.Results) == 1 {
+									walk(ret.Results[0])
+								}
+							}
+							return
+						}
+						if !loopBlocks(x.Parent())[x.Block()] {
+							bad = "a value computed before the level loop (" + p.pos(x.Pos()) + ")"
+						}
 					case ssa.Instruction:
-						if !inLoop[x.Block()] {
+						if !loopBlocks(x.Parent())[x.Block()] {
 							bad = "a value computed before the level loop (" + p.pos(x.Pos()) + ")"
 						}
 					default:
